@@ -135,7 +135,9 @@ def hashseed_pages(seeds=None):
     for k, d in enumerate(("inc_a", "inc_b", "inc_c")):
         files[f"inc/{d}/params.inc"] = f"  integer, parameter :: from_{d} = {k}\n    !! declared in {d}/params.inc\n"
     files["src/withinc.f90"] = "module withinc\n  !! includes params.inc\n  implicit none\n  include \"params.inc\"\nend module withinc\n"
-    meta = "src_dir: ./src\noutput_dir: ./doc\ngraph: false\nsearch: true\ncreation_date: fixed\ninclude: ./inc/inc_b\n         ./inc/inc_a\n         ./inc/inc_c\n"
+    # extra type keywords one of which is a prefix of another: the longer one is the type of `ctx`
+    files["src/petsc_like.f90"] = "module petsc_like\n  !! doc\n  Vec :: v\n  VecScatter :: ctx\n  MatNullSpace :: nsp\n  Mat :: a\nend module petsc_like\n"
+    meta = "src_dir: ./src\noutput_dir: ./doc\ngraph: false\nsearch: true\ncreation_date: fixed\ninclude: ./inc/inc_b\n         ./inc/inc_a\n         ./inc/inc_c\nextra_vartypes: VecScatter\n                Vec\n                MatNullSpace\n                Mat\n"
     ref = None
     for sd in seeds:
         os.makedirs(realrun.TMPROOT, exist_ok=True)
@@ -155,6 +157,10 @@ def hashseed_pages(seeds=None):
         if "from_inc_b" not in snap.get("module/withinc.html", ""):
             return {"confirmed": True, "input": {"files": files, "options": meta, "PYTHONHASHSEED": sd}, "actual": "module/withinc.html does not document from_inc_b",
                     "expected": "the include file of the first directory of the `include` option (inc_b) is the one read", "how": "full run; page of the including module"}
+        page = snap.get("module/petsc_like.html", "")
+        if "vecscatter" not in page.lower() or "matnullspace" not in page.lower():
+            return {"confirmed": True, "input": {"files": files, "options": meta, "PYTHONHASHSEED": sd}, "actual": "module/petsc_like.html does not show the types vecscatter / matnullspace",
+                    "expected": "`VecScatter :: ctx` has the type VecScatter (not Vec with an attribute Scatter)", "how": "full run; page of the module"}
         if ref is None:
             ref, refseed = snap, sd
             continue
